@@ -33,7 +33,7 @@ var verifNames = []string{"error", "a", "b"}
 func verifOperand(i string, kinds int) verifSpec {
 	var s verifSpec
 	k := nondetChoice("kind"+i, kinds)
-	s.msg = nondetString("msg"+i, 1)
+	s.msg = nondetStringUpTo("msg"+i, 1) // possibly empty
 	switch k {
 	case 0: // service error without cause
 		s.isSvc = true
